@@ -761,11 +761,121 @@ def r05_8(ctx, counts) -> RuleResult:
     return res
 
 
+MEMO_SAMPLE = """
+def outer(key_func):
+    memo = {}
+    def get(obj: Any):
+        try:
+            return memo[obj]
+        except KeyError:
+            memo[obj] = v = key_func(obj)
+            return v
+    return get
+"""
+STR_ANNOTATIONS = ('str', 'Optional[str]', 'str | None', 'None | str')
+
+
+def argument_keyed_memos(fnode: ast.AST) -> list[tuple[str, str, str, ast.AST]]:
+    """(container, parameter, annotation, store node) for every container that is not a local of
+    the function and is both read and written at a key built from a parameter."""
+    from ..engine.srcmodel import walk_local
+    a = fnode.args
+    params = {p_.arg: (stmt_text(p_.annotation) if p_.annotation is not None else '')
+              for p_ in a.posonlyargs + a.args + a.kwonlyargs if p_.arg not in ('self', 'cls')}
+    if not params:
+        return []
+    local: set[str] = set()
+    for x in walk_local(fnode):
+        if isinstance(x, (ast.Assign, ast.AnnAssign, ast.AugAssign)):
+            for t0 in (x.targets if isinstance(x, ast.Assign) else [x.target]):
+                if isinstance(t0, ast.Name):
+                    local.add(t0.id)
+                elif isinstance(t0, (ast.Tuple, ast.List)):
+                    local |= {t.id for t in t0.elts if isinstance(t, ast.Name)}
+    local -= set(params)  # a parameter reassigned is still the caller's value or derived from it
+    stores: dict[str, dict[str, ast.AST]] = {}
+    loads: dict[str, set[str]] = {}
+    for x in walk_local(fnode):
+        if isinstance(x, ast.Subscript) and isinstance(x.value, (ast.Name, ast.Attribute)):
+            d = dotted(x.value)
+            hit = {y.id for y in ast.walk(x.slice) if isinstance(y, ast.Name)} & set(params)
+            if not d or d in local or d in params or not hit:
+                continue
+            if isinstance(x.ctx, ast.Store):
+                for h in hit:
+                    stores.setdefault(d, {}).setdefault(h, x)
+            elif isinstance(x.ctx, ast.Load):
+                loads.setdefault(d, set()).update(hit)
+        elif isinstance(x, ast.Call) and isinstance(x.func, ast.Attribute) and x.args \
+                and x.func.attr in ('get', 'setdefault', '__contains__'):
+            d = dotted(x.func.value)
+            hit = {y.id for y in ast.walk(x.args[0]) if isinstance(y, ast.Name)} & set(params)
+            if d and d not in local and d not in params and hit:
+                loads.setdefault(d, set()).update(hit)
+                if x.func.attr == 'setdefault':
+                    for h in hit:
+                        stores.setdefault(d, {}).setdefault(h, x)
+        elif isinstance(x, ast.Compare) and len(x.ops) == 1 \
+                and isinstance(x.ops[0], (ast.In, ast.NotIn)):
+            d = dotted(x.comparators[0])
+            hit = {y.id for y in ast.walk(x.left) if isinstance(y, ast.Name)} & set(params)
+            if d and d not in local and d not in params and hit:
+                loads.setdefault(d, set()).update(hit)
+    out = []
+    for d in sorted(set(stores) & set(loads)):
+        for p_ in sorted(set(stores[d]) & loads[d]):
+            out.append((d, p_, params[p_], stores[d][p_]))
+    return out
+
+
+def r05_10(ctx, counts) -> RuleResult:
+    """a hand-written memo keyed by an argument is only sound for strings"""
+    model = ctx.model
+    res = RuleResult(
+        'R05.10', 'ARGUMENT-KEYED-MEMO',
+        'The hand-written form of R05.7: a function (or closure) that looks its own argument up in '
+        'a dictionary which outlives the call (a variable of the enclosing function, a module or '
+        'class attribute) and stores under the same argument what it computed is a memo keyed '
+        'by Python equality of that argument. XPath items that are equal for Python are distinct '
+        'for XPath (1 / 1.0 / true(), 0.0 / -0.0, "1" as xs:untypedAtomic / xs:string subclasses), '
+        'so the second of two such items receives what was computed for the first: fn:sort with '
+        'a memoised key function orders (1.0, 1) by the key of one of them. Such a memo is '
+        'accepted only when the parameter is annotated str (or Optional[str]).')
+    sample = [n_ for n_ in ast.walk(ast.parse(MEMO_SAMPLE))
+              if isinstance(n_, ast.FunctionDef) and n_.name == 'get'][0]
+    if [(d, p_) for d, p_, _, _ in argument_keyed_memos(sample)] != [('memo', 'obj')]:
+        raise AnalysisError('R05.10: the memo idiom is not recognised in the built-in sample')
+    n = nm = 0
+    for f in sorted(model.all_functions(), key=lambda q: q.key):
+        if not f.module.name.startswith('elementpath') or '.validators' in f.module.name:
+            continue
+        n += 1
+        for d, p_, ann, node in argument_keyed_memos(f.node):
+            nm += 1
+            ok = ann in STR_ANNOTATIONS
+            res.instances.append(f'{f.key}: `{d}` read and written at the parameter `{p_}: '
+                                 f'{ann or "unannotated"}`: {"string key" if ok else "NOT a string"}')
+            if ok:
+                res.ok()
+            else:
+                res.fail(finding('R05.10', f, node, f'memo {d}[{p_}]',
+                                 f'`{d}` outlives the call and is read and written at the argument '
+                                 f'`{p_}: {ann or "unannotated"}`: a memo keyed by Python equality '
+                                 f'of an XPath item: items that are equal for Python and distinct '
+                                 f'for XPath (1, 1.0, true(); 0.0, -0.0) share one slot, so the '
+                                 f'second receives the result computed for the first'))
+    counts['functions_scanned_for_memos'] = n
+    counts['argument_keyed_memos'] = nm
+    if n < 1300:
+        raise AnalysisError(f'only {n} functions scanned for hand-written memos')
+    return res
+
+
 def run(ctx) -> dict:
     counts: dict[str, int] = {}
     results = [r05_1(ctx, counts), r05_2(ctx, counts), r05_3(ctx, counts), r05_4(ctx, counts),
                r05_5(ctx, counts), r05_6(ctx, counts), r05_7(ctx, counts),
-               r05_8(ctx, counts)]
+               r05_8(ctx, counts), r05_10(ctx, counts)]
     # process-wide state is written only by the reviewed inventory (no new caches)
     from .c19_global import r19_5 as _r19_5
     _state = _r19_5(ctx, counts, None, 6)
